@@ -1,0 +1,91 @@
+//go:build verif
+
+package heap
+
+import (
+	"fmt"
+	"strings"
+)
+
+// VerifC04Verify runs the unexported integrity check of a (non-indexed) heap.
+func VerifC04Verify[K, V any](h Heap[K, V]) bool {
+	return h.verify()
+}
+
+// VerifC04MaxDegree returns the size of the degree table a Fibonacci heap with n entries would allocate.
+func VerifC04MaxDegree(n int) int {
+	h := &fibonacci[int, int]{n: n}
+	return h.maxDegree()
+}
+
+// VerifC04Dump prints the internal layout of a (non-indexed) heap (read-only).
+//
+//	binary:    B n len;slot0,slot1,...        slot = key:val or _ for nil
+//	binomial:  N n;forest                     tree = (key:val:order children...) in sibling order, root list from head
+//	fibonacci: F n;forest                     tree = (key:val:degree children...) in ring order from the child pointer,
+//	                                          root ring from ext
+//
+// A list/ring that does not end within 1<<20 steps is cut with "!"; a ring whose prev pointers
+// do not mirror its next pointers gets "!prev" appended.
+func VerifC04Dump[K, V any](h Heap[K, V]) string {
+	var b strings.Builder
+	steps := 0
+	switch t := h.(type) {
+	case *binary[K, V]:
+		fmt.Fprintf(&b, "B %d %d;", t.n, len(t.heap))
+		for i, kv := range t.heap {
+			if i > 0 {
+				b.WriteByte(',')
+			}
+			if kv == nil {
+				b.WriteByte('_')
+			} else {
+				fmt.Fprintf(&b, "%v:%v", kv.Key, kv.Val)
+			}
+		}
+	case *binomial[K, V]:
+		fmt.Fprintf(&b, "N %d;", t.n)
+		var rec func(n *binomialNode[K, V])
+		rec = func(n *binomialNode[K, V]) {
+			for ; n != nil; n = n.sibling {
+				if steps++; steps > 1<<20 {
+					b.WriteByte('!')
+					return
+				}
+				fmt.Fprintf(&b, "(%v:%v:%d", n.key, n.val, n.order)
+				rec(n.child)
+				b.WriteByte(')')
+			}
+		}
+		rec(t.head)
+	case *fibonacci[K, V]:
+		fmt.Fprintf(&b, "F %d;", t.n)
+		ok := true
+		var rec func(start *fibonacciNode[K, V])
+		rec = func(start *fibonacciNode[K, V]) {
+			if start == nil {
+				return
+			}
+			for n := start; ; {
+				if steps++; steps > 1<<20 || n == nil {
+					b.WriteByte('!')
+					return
+				}
+				if n.next == nil || n.next.prev != n {
+					ok = false
+				}
+				fmt.Fprintf(&b, "(%v:%v:%d", n.key, n.val, n.degree)
+				rec(n.child)
+				b.WriteByte(')')
+				if n = n.next; n == start {
+					return
+				}
+			}
+		}
+		rec(t.ext)
+		if !ok {
+			b.WriteString("!prev")
+		}
+	}
+	return b.String()
+}
